@@ -246,7 +246,7 @@ def finish(mod, check_id, tier, seed, plan, records, covers, inconclusive, t0):
     for v in new_viols:
         by_mon.setdefault(v['monitor'], []).append(v)
     if new_viols:
-        rdir = os.path.join(env.VERIF, 'replays', check_id)
+        rdir = os.path.join(os.environ.get('VERIF_REPLAY_DIR') or os.path.join(env.VERIF, 'replays'), check_id)
         os.makedirs(rdir, exist_ok=True)
         for mon, vs in sorted(by_mon.items()):
             for v in vs[:2]:
@@ -290,7 +290,7 @@ def finish(mod, check_id, tier, seed, plan, records, covers, inconclusive, t0):
         'wall_s': round(wall, 2), 'violations': len(new_viols),
         'verdict': 'violated' if new_viols else ('inconclusive' if inconclusive else 'held'),
     }
-    edir = os.path.join(env.VERIF, 'evidence')
+    edir = os.environ.get('VERIF_EVIDENCE_DIR') or os.path.join(env.VERIF, 'evidence')
     os.makedirs(edir, exist_ok=True)
     with open(os.path.join(edir, '%s.json' % check_id), 'w') as f:
         json.dump(ev, f, indent=1, default=repr)
